@@ -73,14 +73,16 @@ def extra_cfgs(tier):
             return {'ins': {'d': d}, 'outs': {'q': q}}
         add('Reg4 plain reset_value %s' % rv, b)
     # d and q of different widths, reset values that are negative / do not fit in d / exceed 32 bits
-    for dw, qw, rv in ((4, 8, -3), (4, 8, 200), (8, 4, -3), (8, 4, 9), (4, 40, 1 << 33), (4, 40, -1), (2, 6, 37), (6, 2, 2)):
+    for dw, qw, rv in ((4, 8, -3), (4, 8, 200), (8, 4, -3), (8, 4, 9), (4, 40, 1 << 33), (4, 40, -1), (2, 6, 37), (6, 2, 2),
+                       (40, 40, -(1 << 35)), (40, 40, -5000000000), (8, 36, -(1 << 31) - 1), (40, 40, (1 << 40) + 3)):
         def b(s, dw=dw, qw=qw, rv=rv):
             d, q, r = W(s, 'd', dw), W(s, 'q', qw), W(s, 'r', 1)
             Reg(s, 'reg', d, q, reset=r, reset_value=rv)
             return {'ins': {'d': d, 'r': r}, 'outs': {'q': q}}
         add('Reg d%d q%d reset_value %s' % (dw, qw, rv), b)
     # constants: in range, negative, oversized
-    for w, v in ((4, 5), (4, -1), (4, 16), (4, 21), (1, 1), (8, 255), (8, -128), (33, -1), (36, 1 << 35), (3, 0)):
+    for w, v in ((4, 5), (4, -1), (4, 16), (4, 21), (1, 1), (8, 255), (8, -128), (33, -1), (36, 1 << 35), (3, 0),
+                 (40, -5000000000), (40, -(1 << 39)), (33, -(1 << 32)), (64, -(1 << 63)), (34, -(1 << 31) - 1), (32, -(1 << 31)), (40, (1 << 41) + 5)):
         def b(s, w=w, v=v):
             a, r = W(s, 'a', w), W(s, 'r', w)
             k = W(s, 'k', w)
@@ -97,6 +99,15 @@ def extra_cfgs(tier):
             EqualConstant(s, 'eq', a, v, r)
             return {'a': a}, {'r': r}
         add('EqualConstant w%d constant %d (outside the operand range or wider than 32 bits)' % (w, v), b, 'comb')
+    # the boundary of the operand range at every width class of the literal emitters (below / at / above 32 bits)
+    for w in (2, 30, 31, 32, 33, 40):
+        for v in ((1 << w) - 1, 1 << w, (1 << w) + 1, 1 << (w + 1), 1 << (w - 1), -(1 << (w - 1)), -1):
+            for cls in (EqualConstant, NotEqualConstant):
+                def b(s, w=w, v=v, cls=cls):
+                    a, r = W(s, 'a', w), W(s, 'r', 1)
+                    cls(s, 'eq', a, v, r)
+                    return {'a': a}, {'r': r}
+                add('%s w%d constant %d (boundary of the operand range)' % (cls.__name__, w, v), b, 'comb')
     # gates whose result wire is wider / narrower than the operands (IEEE 1364 sizes the operands to the target
     # before inverting, so the upper result bits of an inverting gate are 1)
     for aw, rw in ((4, 8), (2, 3), (1, 3), (4, 2), (8, 4), (3, 33)):
